@@ -52,6 +52,7 @@ __CPROVER_ensures((SPEC_HMAC_OK(jwt->alg, jwt->key->bits) && jwt->key->kty == JW
 __CPROVER_ensures(__CPROVER_return_value == 0 ==> (SPEC_IS_HS(jwt->alg) && jwt->key->kty == JWK_KEY_TYPE_OCT))
 DECL___check_hmac(contract_C09___check_hmac, C09_HMAC_CLAUSES);
 DECL___check_hmac(contract_C02___check_hmac, C02_HMAC_CLAUSES);
+DECL___check_hmac(contract_all___check_hmac, C09_HMAC_CLAUSES C02_HMAC_CLAUSES);
 
 #define DECL___check_key_bits(NAME, CLAUSES) \
 int NAME(jwt_t *jwt) \
@@ -71,6 +72,7 @@ __CPROVER_ensures((SPEC_ASYM_OK(jwt->alg, jwt->key->bits) && jwt->key->kty == SP
 __CPROVER_ensures(__CPROVER_return_value == 0 ==> (SPEC_IS_ASYM(jwt->alg) && jwt->key->kty == SPEC_KTY_FOR(jwt->alg)))
 DECL___check_key_bits(contract_C09___check_key_bits, C09_KEYBITS_CLAUSES);
 DECL___check_key_bits(contract_C02___check_key_bits, C02_KEYBITS_CLAUSES);
+DECL___check_key_bits(contract_all___check_key_bits, C09_KEYBITS_CLAUSES C02_KEYBITS_CLAUSES);
 
 /* jwt_sign: a provider operation is reached only after the matching check
  * accepted THIS algorithm and THIS key (the gate is the precondition of the
@@ -106,6 +108,8 @@ __CPROVER_ensures(__CPROVER_return_value == 0 ==> C02_FAMILY_OK(jwt))
 DECL_jwt_sign(contract_C09_jwt_sign, C09, C09_SIGN_CLAUSES);
 DECL_jwt_sign(contract_C02_jwt_sign, C02, C02_SIGN_CLAUSES);
 DECL_jwt_sign(contract_nogate_jwt_sign, nogate, );
+DECL_jwt_sign(contract_C01_jwt_sign, nogate, );
+DECL_jwt_sign(contract_all_jwt_sign, all, C09_SIGN_CLAUSES C02_SIGN_CLAUSES);
 
 /* ===================== C02: header alg parsing is exact ================= */
 #define STR_ALG_CLAUSE(A) __CPROVER_ensures((alg != NULL && SPEC_NAME_IS(alg, A)) ==> __CPROVER_return_value == (A))
@@ -186,7 +190,17 @@ CLAUSES
 __CPROVER_ensures(__CPROVER_return_value == 0 ==> C09_FLOOR_OK(jwt))
 #define C02_VSH_CLAUSES \
 __CPROVER_ensures(__CPROVER_return_value == 0 ==> C02_FAMILY_OK(jwt))
+/* C01 (HMAC): success only if the MAC primitive ran over exactly (head,
+ * head_len) under exactly the key's octets with the hash the algorithm names */
+#define C01_MAC_EXACTLY(jwt, head, head_len) ( \
+	g_mac_key == (jwt)->key->oct.key && g_mac_keylen == (jwt)->key->oct.len && \
+	g_mac_data == (const void *)(head) && g_mac_len == (head_len) && g_mac_hash == SPEC_HASH_BITS((jwt)->alg))
+#define C01_VSH_CLAUSES \
+__CPROVER_requires(SPEC_IS_HS(jwt->alg)) \
+__CPROVER_ensures(__CPROVER_return_value == 0 ==> (SPEC_IS_HS(jwt->alg) && C01_MAC_EXACTLY(jwt, head, head_len)))
+DECL__verify_sha_hmac(contract_C01__verify_sha_hmac, nogate, C01_VSH_CLAUSES);
 DECL__verify_sha_hmac(contract_C09__verify_sha_hmac, C09, C09_VSH_CLAUSES);
+DECL__verify_sha_hmac(contract_all__verify_sha_hmac, all, C01_VSH_CLAUSES C09_VSH_CLAUSES C02_VSH_CLAUSES);
 DECL__verify_sha_hmac(contract_C02__verify_sha_hmac, C02, C02_VSH_CLAUSES);
 
 #define DECL_jwt_verify_sig(NAME, P, CLAUSES) \
@@ -207,7 +221,18 @@ __CPROVER_ensures(!C09_FLOOR_OK(jwt) ==> (jwt->error != 0 && jwt->error_msg[0] !
 #define C02_VS_CLAUSES \
 __CPROVER_ensures((__CPROVER_old(jwt->error) == 0 && jwt->error == 0) ==> C02_FAMILY_OK(jwt)) \
 __CPROVER_ensures(!C02_FAMILY_OK(jwt) ==> (jwt->error != 0 && jwt->error_msg[0] != 0))
+/* C01: the flag stays clear only if a primitive vouched for exactly this key,
+ * this algorithm and this data range; every other path leaves the flag set */
+#define C01_VS_CLAUSES \
+__CPROVER_ensures((__CPROVER_old(jwt->error) == 0 && jwt->error == 0) ==> ( \
+	SPEC_IS_SIGNING(jwt->alg) && \
+	(SPEC_IS_HS(jwt->alg) ? C01_MAC_EXACTLY(jwt, head, head_len) : \
+	 (g_ver_valid == 1 && OPS_KEYMAT_OF(jwt, g_ver_keymat) && g_ver_data == (const void *)head && \
+	  g_ver_len == head_len && g_ver_hash == SPEC_HASH_BITS(jwt->alg) && g_ver_pss == SPEC_IS_PS(jwt->alg) && \
+	  g_ver_family == (int)SPEC_KTY_FOR(jwt->alg)))))
+DECL_jwt_verify_sig(contract_C01_jwt_verify_sig, nogate, C01_VS_CLAUSES);
 DECL_jwt_verify_sig(contract_C09_jwt_verify_sig, C09, C09_VS_CLAUSES);
+DECL_jwt_verify_sig(contract_all_jwt_verify_sig, all, C01_VS_CLAUSES C09_VS_CLAUSES C02_VS_CLAUSES);
 DECL_jwt_verify_sig(contract_C02_jwt_verify_sig, C02, C02_VS_CLAUSES);
 
 #endif
